@@ -14,7 +14,7 @@ mut("C03", "r2-hashmap-const-arg", "database/storage/hashmap/map.go",
 mut("C03", "r2-badger-inverted", "database/storage/badger/badger.go",
     "if !r.Meta().CheckPermission(local, internal) {", "if r.Meta().CheckPermission(local, internal) {", "C03-R2|badger.(*Badger).queryExecutor$1")
 mut("C03", "r2-notifications-no-check", "notifications/database.go",
-    "\tcase !n.Meta().CheckPermission(local, internal):\n\t\treturn false\n", "", "C03-R2|notifications.(*StorageInterface).processQuery")
+    "\tcase !n.Meta().CheckPermission(local, internal):\n\t\treturn false\n", "", "C03-R2|notifications.(*StorageInterface).processQuery", comment="reverts fix ddfb53a")
 mut("C03", "r3-getrecord-cache-unchecked", "database/interface.go",
     "\tif r != nil {\n\t\tif !i.options.hasAccessPermission(r) {\n\t\t\treturn nil, db, ErrPermissionDenied\n\t\t}\n\t\treturn r, db, nil\n\t}",
     "\tif r != nil {\n\t\treturn r, db, nil\n\t}", "C03-R3|getRecord / return record")
@@ -66,7 +66,7 @@ mut("C01", "r3-unlocked-store", "modules/modules.go",
 mut("C01", "r3-foreign-store", "modules/mgmt.go",
     "func (m *Module) markDependencies() {", "func (m *Module) markDependencies() {\n\tm.Lock()\n\tm.status = StatusOffline\n\tm.Unlock()", "C01-R3|markDependencies")
 mut("C01", "r4-start-failure-stuck", "modules/modules.go",
-    "\t\t\tm.Lock()\n\t\t\tm.status = StatusOffline\n\t\t\tm.Unlock()\n\t\t\tm.Error(\n\t\t\t\tfmt.Sprintf(\"%s:start-failed\"", "\t\t\tm.Error(\n\t\t\t\tfmt.Sprintf(\"%s:start-failed\"", "C01-R4|start$2")
+    "\t\t\tm.Lock()\n\t\t\tm.status = StatusOffline\n\t\t\tm.Unlock()\n\t\t\tm.Error(\n\t\t\t\tfmt.Sprintf(\"%s:start-failed\"", "\t\t\tm.Error(\n\t\t\t\tfmt.Sprintf(\"%s:start-failed\"", "C01-R4|start$2", comment="reverts fix b5f220d")
 mut("C01", "r4-stop-error-early-report", "modules/modules.go",
     "\t\tif err != nil {\n\t\t\t// Set error as module error.", "\t\tif err != nil {\n\t\t\treports <- &report{module: m, err: err}\n\t\t\treturn\n\t\t}\n\t\tif err != nil {\n\t\t\t// Set error as module error.", "C01-R4|stopAllTasks")
 mut("C01", "r5-manage-swap", "modules/mgmt.go",
@@ -582,3 +582,6 @@ mut("C20", "r4-finalize-drops", "log/output.go",
     "\t\tcase line := <-logBuffer:\n\t\t\tadapter.Write(line, 0)", "\t\tcase line := <-logBuffer:\n\t\t\tif line.level >= InfoLevel {\n\t\t\t\tadapter.Write(line, 0)\n\t\t\t}", "C20-R4|every dequeued line is written")
 mut("C20", "r4-shutdown-no-wait", "log/logging.go",
     "\tif shutdownFlag.SetToIf(false, true) {\n\t\tclose(shutdownSignal)\n\t}\n\tshutdownWaitGroup.Wait()", "\tif shutdownFlag.SetToIf(false, true) {\n\t\tclose(shutdownSignal)\n\t\tshutdownWaitGroup.Wait()\n\t}", "C20-R4|waits for the writer")
+
+mut("C02", "r7-fstree-delete-absent-error", "database/storage/fstree/fstree.go",
+    "\tif err != nil && !errors.Is(err, fs.ErrNotExist) {\n\t\treturn fmt.Errorf(\"fstree: could not delete %s: %w\", dstPath, err)", "\tif err != nil {\n\t\treturn fmt.Errorf(\"fstree: could not delete %s: %w\", dstPath, err)", "C02-R7|fstree.(*FSTree).Delete", comment="reverts fix aed71ac")
